@@ -32,9 +32,10 @@ func init() {
 			"(F) faults on the cache file: for two saved caches (one with a 12-dependency entry) every truncation offset, every deleted / duplicated / swapped line, every tab replaced, garbage appended: Load must fail iff the independent parser rejects the bytes, and, whatever Load said, no probe (find(p); bump(dep), find(p) for every dependency) may return data that is not current. " +
 			"(S) schedules: 2 caller threads (find/prepare) plus a thread that changes fingerprints, under a cooperative scheduler with scheduling points at the entry of every function of the cache package and at every fingerprint call; all schedules with <=2 preemptions; every successful find returns data that was current at some moment during the call, and after quiescence no stale entry is left (a further find returns current data); plus a free-running race-detector pass. " +
 			"non-trivial = histories with at least one fingerprint change, fault or restart; distinct = history / fault / schedule",
-		Assumptions: []string{"the stub models `go list -export`: export files are content-addressed and never modified in place", "fingerprints are scripted: they change exactly when the harness bumps a version"},
-		Run:         run,
-		Replay:      replay,
+		Assumptions:    []string{"the stub models `go list -export`: export files are content-addressed and never modified in place", "fingerprints are scripted: they change exactly when the harness bumps a version"},
+		ThoroughBudget: 60 * time.Minute,
+		Run:            run,
+		Replay:         replay,
 	})
 }
 
